@@ -62,10 +62,14 @@ var ErrInvalidHuffman = errors.New("hpack: invalid Huffman-encoded data")
 // maxLen bytes will return ErrStringLength.
 func huffmanDecode(buf *bytes.Buffer, maxLen int, v []byte) error {
 	n := rootHuffmanNode
-	cur, nbits := uint(0), uint8(0)
+	// cur is the bit buffer that has not been fed into n.
+	// nbits is the number of low order bits in cur that are valid.
+	// sbits is the number of bits of the symbol prefix being decoded.
+	cur, nbits, sbits := uint(0), uint8(0), uint8(0)
 	for _, b := range v {
 		cur = cur<<8 | uint(b)
 		nbits += 8
+		sbits += 8
 		for nbits >= 8 {
 			idx := byte(cur >> (nbits - 8))
 			n = n.children[idx]
@@ -79,6 +83,7 @@ func huffmanDecode(buf *bytes.Buffer, maxLen int, v []byte) error {
 				buf.WriteByte(n.sym)
 				nbits -= n.codeLen
 				n = rootHuffmanNode
+				sbits = nbits
 			} else {
 				nbits -= 8
 			}
@@ -86,12 +91,28 @@ func huffmanDecode(buf *bytes.Buffer, maxLen int, v []byte) error {
 	}
 	for nbits > 0 {
 		n = n.children[byte(cur<<(8-nbits))]
+		if n == nil {
+			return ErrInvalidHuffman
+		}
 		if n.children != nil || n.codeLen > nbits {
 			break
+		}
+		if maxLen != 0 && buf.Len() == maxLen {
+			return ErrStringLength
 		}
 		buf.WriteByte(n.sym)
 		nbits -= n.codeLen
 		n = rootHuffmanNode
+		sbits = nbits
+	}
+	if sbits > 7 {
+		// Either there was an incomplete symbol, or overlong padding.
+		// Both are errors (RFC 7541 section 5.2).
+		return ErrInvalidHuffman
+	}
+	if mask := uint(1<<nbits - 1); cur&mask != mask {
+		// Trailing bits must be a prefix of EOS (RFC 7541 section 5.2).
+		return ErrInvalidHuffman
 	}
 	return nil
 }
